@@ -333,10 +333,62 @@ func (fc *factCtx) cmps() []cmpFact {
 }
 
 // lenGreater: do the facts imply len(E) > c ?
+// lenArg: e is len(X), or a local defined exactly once as `n := len(X)` (typically in the
+// init statement of the guard) with X not reassigned between that definition and the use.
+func (fc *factCtx) lenArg(e ast.Expr) (ast.Expr, bool) {
+	if arg, ok := isLenOf(fc.info, e); ok {
+		return arg, true
+	}
+	id, ok := e.(*ast.Ident)
+	if !ok || fc.fn == nil {
+		return nil, false
+	}
+	obj := fc.info.Uses[id]
+	if obj == nil {
+		return nil, false
+	}
+	var arg ast.Expr
+	var defEnd token.Pos
+	defs := 0
+	ast.Inspect(fc.fn, func(nd ast.Node) bool {
+		switch s := nd.(type) {
+		case *ast.AssignStmt:
+			for i, l := range s.Lhs {
+				lid, ok := l.(*ast.Ident)
+				if !ok || (fc.info.Defs[lid] != obj && fc.info.Uses[lid] != obj) {
+					continue
+				}
+				defs++
+				if len(s.Rhs) == len(s.Lhs) {
+					if a, ok := isLenOf(fc.info, s.Rhs[i]); ok {
+						arg, defEnd = a, s.End()
+					}
+				}
+			}
+		case *ast.IncDecStmt:
+			if lid, ok := s.X.(*ast.Ident); ok && fc.info.Uses[lid] == obj {
+				defs++
+			}
+		case *ast.UnaryExpr:
+			if lid, ok := s.X.(*ast.Ident); ok && s.Op == token.AND && fc.info.Uses[lid] == obj {
+				defs++
+			}
+		}
+		return true
+	})
+	if defs != 1 || arg == nil {
+		return nil, false
+	}
+	if fc.assignedBetween(objsIn(fc.info, arg), defEnd, fc.use, nil) {
+		return nil, false
+	}
+	return arg, true
+}
+
 func (fc *factCtx) lenGreater(E ast.Expr, c int64) bool {
 	want := idExpr(fc.info, E)
 	for _, f := range fc.cmps() {
-		arg, ok := isLenOf(fc.info, f.x)
+		arg, ok := fc.lenArg(f.x)
 		if !ok || idExpr(fc.info, arg) != want {
 			continue
 		}
@@ -376,7 +428,7 @@ func (fc *factCtx) idxBelowLen(I, E ast.Expr) bool {
 		if idExpr(fc.info, f.x) != wi {
 			continue
 		}
-		if arg, ok := isLenOf(fc.info, f.y); ok && idExpr(fc.info, arg) == we {
+		if arg, ok := fc.lenArg(f.y); ok && idExpr(fc.info, arg) == we {
 			// the same index variable must denote the same object
 			return true
 		}
